@@ -426,6 +426,31 @@ Definition deref (v : gval) : option gval :=
   | _ => Some v
   end.
 
+(* nesting depth of the JSON text the easyjson encoders write for a value whose
+   slices, maps and raw messages are all `omitempty` (empty ones are left out,
+   nil pointers are left out, a nil map inside a list is written as null) *)
+Fixpoint gdepth (v : gval) : nat :=
+  match v with
+  | GRaw (Some j) => json_depth j
+  | GIface j => json_depth j
+  | GSlice l =>
+      match l with
+      | [] => 0%nat
+      | _ => S (fold_right (fun x acc => Nat.max (gdepth x) acc) 0%nat l)
+      end
+  | GMap m =>
+      match m with
+      | [] => 0%nat
+      | _ => S ((fix go (m : list (string * gval)) : nat :=
+                   match m with [] => 0%nat | (_, x) :: r => Nat.max (gdepth x) (go r) end) m)
+      end
+  | GPtr x => gdepth x
+  | GStruct fs =>
+      S ((fix go (fs : list (string * gval)) : nat :=
+            match fs with [] => 0%nat | (_, x) :: r => Nat.max (gdepth x) (go r) end) fs)
+  | _ => 0%nat
+  end.
+
 (* replace a field of a struct value *)
 Definition sset (name : string) (x : gval) (v : gval) : gval :=
   match v with
